@@ -5,25 +5,25 @@ ROOT = os.path.dirname(os.path.dirname(os.path.abspath(__file__)))
 
 # id: (category, technique, level text, level note, design ref)
 P = {
- "C01": ("exploration", "exhaustive enumeration of all codes x entry points against an independent float64 EOTF oracle",
+ "C01": ("exploration", "exhaustive enumeration of all codes x entry points (all standard colour types) against an independent float64 EOTF oracle; fresh-process call-order probes under several GOMAXPROCS",
          "Every one of the 256 8-bit and 65,536 16-bit codes is pushed through every public decode entry point of all 4 spaces and compared with the published EOTF evaluated in float64 (abs 3e-7), plus exact end points, strict monotonicity and 8-bit == 16-bit(257v). The domain is finite and enumerated completely in both tiers, so for the property as stated this is a decision, not a sample.",
          "Trusts the transcription of the published transfer-function constants in harness/internal/ref and the Go math library (float64 pow).", "4/C01"),
- "C02": ("exploration", "generated float32 bit patterns (boundary-targeted quick, all 2^32 thorough) against an interval oracle from the published OETF",
+ "C02": ("exploration", "generated float32 bit patterns (boundary-targeted quick, all 2^32 thorough) against an interval oracle from the published OETF; fresh-process call-order probes under several GOMAXPROCS",
          "Quick visits every table-bucket boundary +-2 ulp, every float32 exponent with seeded mantissas, and all specials; thorough walks all 2^32 float32 patterns per encoder in numeric order, checking no-panic, clipping, monotonicity and the half-code/half-step interval at both ends of every constant run (equivalent to every float because the bounds are monotone).",
          "Trusts internal/ref OETFs; NaN only required not to panic; 2^-22 relative slack for float32 table construction is stated in evidence.", "4/C02"),
- "C03": ("exploration", "coefficient probing + lattice/rapid triples against a float64 matrix derived independently from the declared chromaticities",
+ "C03": ("exploration", "coefficient probing + lattice/special-value/rapid triples against a float64 matrix derived independently from the declared chromaticities; call-order probes; mutate-after-construct relation",
          "Declared primaries/white compared with the published values; the 9+9 matrix coefficients recovered by probing the public API and compared with an independently derived float64 matrix; linearity, no clamping and inversion on a 2^18 (quick) / 2^24 (thorough) lattice plus rapid triples in [-1,2]^3.",
          "Trusts the table of published chromaticities in internal/ref and its Gauss-Jordan inverse.", "4/C03"),
  "C04": ("exploration", "lattice + rapid pixels through the documented pipeline against an independent float64 colorimetric reference with an interval oracle",
          "All 16 ordered space pairs; quick: 64^3 lattice, greys, cube faces, rapid pixels, alpha sweep; thorough: all 2^24 RGB per pair. Oracle is the float64 pipeline built from published formulas and declared chromaticities, compared through the encoder's own stated half-step/half-code interval.",
          "Trusts internal/ref (EOTF/OETF, Bradford, matrix derivation).", "4/C04"),
- "C05": ("exploration", "rapid grammar-built PNG/JPEG/WebP files + header field sweeps, differential against the generator's fields and std/x-image DecodeConfig",
+ "C05": ("exploration", "rapid grammar-built PNG/JPEG/WebP files + header field sweeps, differential against the generator's fields and std/x-image DecodeConfig; metamorphic over reader dynamic type/position",
          "Files are built from a grammar (every PNG colour type/bit depth, JPEG SOF0/SOF2 with random segments, VP8/VP8L/VP8X) and field sweeps over the dimension fields; results are compared with the written fields and with image/png, image/jpeg and x/image/webp DecodeConfig, through the specific loaders and autometa.",
          "Trusts the harness' container builders (cross-checked by the standard decoders accepting the files).", "4/C05"),
  "C06": ("exploration", "rapid-generated embedded profiles (sizes straddling buffer boundaries, chunk permutations, damage classes) with round-trip and model oracles",
          "Round-trip oracle for undamaged profiles in all three containers; (nil,nil) for none; for each damage class a reference model states whether an error is mandatory or a validity predicate applies.",
          "Trusts harness builders and compress/zlib as the deflate reference.", "4/C06"),
- "C07": ("fault_enumeration", "enumeration of every truncation point and every sticky I/O-fault position of each seed file under several read schedules; replay-stream oracle",
+ "C07": ("fault_enumeration", "enumeration of every truncation point and every sticky I/O-fault position (five error values) of each seed file under several read schedules, reader types and ways of draining; replay-stream oracle; native fuzzing in thorough",
          "For each seed (repository images, grammar-built and corrupted files) every prefix length and every fault position is enumerated (<= 8 KiB; structural boundaries beyond), across source schedules and the four loaders; the returned stream must yield exactly the delivered bytes then the injected error or EOF, and nothing may panic.",
          "Faults are sticky (a failed source keeps failing); sources never return (0,nil).", "4/C07"),
  "C08": ("exploration", "metamorphic: outcome under generated read schedules == outcome under all-at-once delivery",
@@ -35,7 +35,7 @@ P = {
  "C10": ("exploration", "rapid images (all std types, origins, sub-images, parallelism, in-place) against a Set()-based reference model compared byte-for-byte over the whole parent buffer",
          "Model-based: a clone of the destination parent is updated through the standard library's Set with the per-colour function; the real parent's entire Pix must equal it.",
          "Per-colour functions themselves are C01/C02/C14's business; destination smaller than source is outside the precondition.", "4/C10"),
- "C11": ("exploration", "generated goroutine schedules, each run in a fresh race-instrumented process; oracle = race detector + agreement with a sequential run",
+ "C11": ("exploration", "generated goroutine schedules with repetition (hammer trials), each run in a fresh race-instrumented process; oracle = race detector + agreement with a sequential run",
          "Trial descriptions (goroutine count, GOMAXPROCS, per-goroutine operation lists, barrier shape) are generated from the seed; each runs in a fresh process built with -race from the current tree so first-use initialisation really races; results are compared with a sequential execution.",
          "Explores schedules only as far as the Go scheduler varies them; the happens-before race detector does not need the bad interleaving to occur, only both accesses.", "4/C11"),
  "C12": ("exploration", "table/grid/rapid white-point pairs and triples against an independent float64 Bradford implementation with conditioning-aware tolerances",
